@@ -91,6 +91,7 @@ ORACLE = {
 
 COMPONENTS = {
     'C03': [('layout', 'check_layout.py')],
+    'C11': [('lists', 'check_lists.py')],
     'C20': [('layout', 'check_layout.py'), ('forward', 'check_forward.py'), ('leaf', 'leafcheck.py')],
     'C17': [('containers', 'check_containers.py')],
     'C18': [('derive', 'check_derive.py')],
